@@ -16,9 +16,16 @@
 (*         mode   : seq of [n, ann]  (annotated attributes of one          *)
 (*                  autonomous mode; <<>> = no autonomous mode)]           *)
 (* Value kinds: "A" "B" (B is a subclass of A) "C" instances, "zero" (0),  *)
-(* "int7", "empty" (''), "none" (None), "list" ([1, 2]).                   *)
-(* Annotations: "A" "B" "C" "int" "str" "listint" (the generic alias       *)
-(* list[int]) and "K1"/"K2", the classes of components c1/c2.              *)
+(* "int7", "empty" (''), "none" (None), "list" ([1, 2]), "true"/"false",   *)
+(* "func" (a plain function object; at class level it is a method of the   *)
+(* robot, which is not an injectable object).                              *)
+(* Annotations: "A" "B" "C" "int" "str" "bool" "listint" (the generic      *)
+(* alias list[int]), "callable" (typing.Callable[[], int]) and "K1"/"K2",  *)
+(* the classes of components c1/c2.                                        *)
+(* same: c1 and c2 are two instances of ONE class whose constructor        *)
+(* takes 'own: bool' (filled per component from c1_own / c2_own) and       *)
+(* presets the annotated attribute x only when own is true - what is       *)
+(* requested is decided per instance, not per class.                       *)
 (***************************************************************************)
 EXTENDS Integers, Sequences, FiniteSets, TLC, Json
 
@@ -35,6 +42,8 @@ Inst(v, ann) ==      \* isinstance(value, annotated type)
       [] ann = "C" -> v = "C"
       [] ann = "int" -> v \in {"zero", "int7"}
       [] ann = "str" -> v = "empty"
+      [] ann = "bool" -> v \in {"true", "false"}
+      [] ann = "callable" -> v = "func"
       [] ann = "listint" -> v = "list"
       [] ann = "K1" -> v = "comp.c1"
       [] ann = "K2" -> v = "comp.c2"
@@ -49,6 +58,7 @@ AttrsOf(opt, c) ==
       [] opt = "xInt" -> <<Attr("x", "int", "no")>>
       [] opt = "xStr" -> <<Attr("x", "str", "no")>>
       [] opt = "xList" -> <<Attr("x", "listint", "no")>>
+      [] opt = "xCall" -> <<Attr("x", "callable", "no")>>
       [] opt = "yA" -> <<Attr("y", "A", "no")>>
       [] opt = "privA" -> <<Attr("_p", "A", "no")>>
       [] opt = "xA_class" -> <<Attr("x", "A", "class")>>
@@ -64,14 +74,22 @@ CtorOf(opt, c) ==
       [] opt = "peer" -> <<[n |-> Peer(c), ann |-> ClassOf(Peer(c))]>>
       [] opt = "priv" -> <<[n |-> "_p", ann |-> "A"]>>
 
+SameComp(own, ann) == [attrs |-> <<Attr("x", ann, IF own = "true" THEN "init" ELSE "no")>>,
+                       ctor |-> <<[n |-> "own", ann |-> "bool"]>>]
 VARIABLES case
 RobotMaps == {[x |-> a, c1_x |-> b, c2_x |-> c] : a \in RobotX, b \in RobotCX, c \in RobotCX}
 One(c) == {[attrs |-> AttrsOf(a, c), ctor |-> CtorOf(k, c)] : a \in AttrOpts, k \in CtorOpts}
 Cases ==
-    {[order |-> o, robot |-> r, clslvl |-> cl, shadow |-> FALSE, comp |-> [c1 |-> k1, c2 |-> k2], mode |-> <<>>]
+    {[order |-> o, robot |-> r, clslvl |-> cl, shadow |-> FALSE, comp |-> [c1 |-> k1, c2 |-> k2], mode |-> <<>>, same |-> FALSE]
         : o \in {x \in Orders : Len(x) = 2}, r \in RobotMaps, cl \in {FALSE}, k1 \in One("c1"), k2 \in One("c2")}
+    \cup
+    \* two instances of one class, differing in what their constructor presets
+    {[order |-> o, robot |-> r @@ [c1_own |-> o1, c2_own |-> o2], clslvl |-> FALSE, shadow |-> FALSE,
+      comp |-> [c1 |-> SameComp(o1, an), c2 |-> SameComp(o2, an)], mode |-> <<>>, same |-> TRUE]
+        : o \in {x \in Orders : Len(x) = 2}, r \in RobotMaps, o1 \in {"true", "false"}, o2 \in {"true", "false"},
+          an \in {"A", "int"}}
     \cup {[order |-> <<"c1">>, robot |-> r, clslvl |-> cl.c, shadow |-> cl.s,
-           comp |-> [c1 |-> k1, c2 |-> [attrs |-> <<>>, ctor |-> <<>>]], mode |-> m]
+           comp |-> [c1 |-> k1, c2 |-> [attrs |-> <<>>, ctor |-> <<>>]], mode |-> m, same |-> FALSE]
         : r \in RobotMaps, cl \in {[c |-> c, s |-> sdw] : c \in ClsLvl, sdw \in BOOLEAN} \ {[c |-> TRUE, s |-> TRUE]},
           k1 \in One("c1"),
           m \in {CASE mo = "none" -> <<>> [] mo = "xA" -> <<Attr("x", "A", "no")>> [] mo = "c1" -> <<Attr("c1", "K1", "no")>>
@@ -86,7 +104,9 @@ Pos(c) == CHOOSE i \in 1..Len(case.order) : case.order[i] = c
 \* (robot attributes + earlier components) or by attribute injection (p = 99: all components)
 Stored(n, p) ==
     IF n \in Comps /\ InOrder(n) /\ Pos(n) < p THEN "comp." \o n
-    ELSE IF n \in DOMAIN case.robot /\ case.robot[n] \notin {"missing", "none"} THEN "robot." \o n
+    ELSE IF n \in DOMAIN case.robot /\ case.robot[n] \notin {"missing", "none"}
+            /\ ~(case.robot[n] = "func" /\ case.clslvl)        \* a function on the robot CLASS is a method, not an object
+         THEN "robot." \o n
     ELSE "absent"
 KindOf(obj) == IF obj \in {"comp.c1", "comp.c2"} THEN obj ELSE case.robot[SubSeq(obj, 7, Len(obj))]
 \* name first, then '<component>_<name>'
@@ -113,13 +133,14 @@ Expected ==
 
 (* C08 as laws over the universe *)
 \* the name beats the prefixed name; a falsy value (0, '') is delivered, None counts as absent
+MethodX == case.robot.x = "func" /\ case.clslvl       \* x is a method of the robot class: no object is stored under x
 C08_NameFirst ==
     \A c \in Comps : \A i \in 1..Len(case.comp[c].attrs) :
-        (InOrder(c) /\ case.comp[c].attrs[i].n = "x" /\ case.robot.x \notin {"missing", "none"})
+        (InOrder(c) /\ case.comp[c].attrs[i].n = "x" /\ case.robot.x \notin {"missing", "none"} /\ ~MethodX)
             => Lookup(c, "x", 99) = "robot.x"
 C08_PrefixSecond ==
     \A c \in Comps : \A i \in 1..Len(case.comp[c].attrs) :
-        (InOrder(c) /\ case.comp[c].attrs[i].n = "x" /\ case.robot.x \in {"missing", "none"}
+        (InOrder(c) /\ case.comp[c].attrs[i].n = "x" /\ (case.robot.x \in {"missing", "none"} \/ MethodX)
            /\ case.robot[c \o "_x"] \notin {"missing", "none"})
             => Lookup(c, "x", 99) = "robot." \o c \o "_x"
 \* constructors only see earlier-declared components
